@@ -199,6 +199,11 @@ func (r *runner) handle(ev sched.Event) {
 	}
 	i := ev.Thread
 	key := r.sys.LockKey(i)
+	if ev.Kind == "yield" && r.cls(ev.Point) == "" {
+		// a yield point this tie does not use: let the goroutine go on, nothing else changes
+		r.s.Resume(i)
+		return
+	}
 	delete(r.soft, i)
 	r.atMid[i] = ev.Kind == "yield" && r.cls(ev.Point) == "mid"
 	switch ev.Kind {
@@ -234,9 +239,6 @@ func (r *runner) handle(ev sched.Event) {
 					r.holder[key] = i
 				}
 			}
-		default:
-			// a yield point this tie does not use: pass through
-			r.s.Resume(i)
 		}
 	case "done", "panic":
 		was := stNew
